@@ -277,6 +277,28 @@ class C17(Prop):
             {"kind": "axis", "shape": [2, 3, 4], "axis": [0, 2], "rng": {"gen": "pcg64", "seed": 4}},
             {"kind": "axis", "shape": [4], "axis": [], "rng": {"gen": "pcg64", "seed": 5}},
             {"kind": "axis", "shape": [2, 2], "axis": [0, 1], "rng": {"gen": "pcg64", "seed": 5}},
+            # inputs on which the seeded changes C17-a2 / b1 / b2 (and the mutants of the same kind) show
+            {"kind": "axis", "shape": [3, 4, 5], "axis": [1, 0], "rng": {"gen": "pcg64", "seed": 4}},
+            {"kind": "axis", "shape": [2, 3, 2], "axis": [2, 0], "rng": {"gen": "randomstate", "seed": 4}},
+            {"kind": "slices", "shape": [3, 4, 5], "axis": [2, 0]},
+            {"kind": "sus", "p": ["5/2", 2, "1/2"], "a": [1, 2, 3], "size": 5,
+             "rng": {"gen": "scripted", "seed": 4, "u": "7/8"}, "regime": "exact"},
+            {"kind": "sus", "p": [5, 4, 1], "a": [1, 2, 3], "size": [2, 5],
+             "rng": {"gen": "scripted", "seed": 5, "u": "15/16"}, "regime": "exact"},
+            {"kind": "outcross", "nrow": 4, "ncol": 2, "x": [1, 1, 2, 2, 1, 2, 1, 2], "layout": "C",
+             "rng": {"gen": "pcg64", "seed": 4}},
+            {"kind": "outcross", "nrow": 2, "ncol": 4, "x": [1, 1, 3, 4, 2, 2, 5, 6], "layout": "C",
+             "rng": {"gen": "pcg64", "seed": 5}},
+            # findings D7d (empty request), D7e (non-contiguous table), D7f (negative axis)
+            {"kind": "sus", "p": [1, 2], "a": [1, 2], "size": 0, "rng": {"gen": "randomstate", "seed": 1}, "regime": "exact"},
+            {"kind": "sus", "p": [1, 2], "a": [1, 2], "size": [2, 0], "rng": {"gen": "pcg64", "seed": 1}, "regime": "exact"},
+            {"kind": "outcross", "nrow": 2, "ncol": 2, "x": [1, 1, 2, 2], "layout": "F", "rng": {"gen": "pcg64", "seed": 1}},
+            {"kind": "outcross", "nrow": 3, "ncol": 2, "x": [1, 1, 2, 2, 3, 4], "layout": "colslice",
+             "rng": {"gen": "pcg64", "seed": 1}},
+            {"kind": "outcross", "nrow": 1, "ncol": 3, "x": [1, 1, 2], "layout": "F", "rng": {"gen": "pcg64", "seed": 1}},
+            {"kind": "axis", "shape": [2, 2], "axis": -2, "rng": {"gen": "pcg64", "seed": 0}},
+            {"kind": "axis", "shape": [2, 3], "axis": -1, "rng": {"gen": "pcg64", "seed": 0}},
+            {"kind": "axis", "shape": [2, 3, 2], "axis": [0, -1], "rng": {"gen": "pcg64", "seed": 3}},
             {"kind": "slices", "shape": [2, 3, 2], "axis": [0, 2]},
             {"kind": "slices", "shape": [3], "axis": []},
             {"kind": "slices", "shape": [2, 0, 2], "axis": [1]},
@@ -374,11 +396,24 @@ class C17(Prop):
             axis = rng.randrange(nd)
         else:
             axis = sorted(rng.sample(range(nd), rng.randint(0, nd if rng.random() < 0.1 else max(0, nd - 1))))
-            if rng.random() < 0.3:
+            if rng.random() < 0.45:
                 rng.shuffle(axis)
+            if nd >= 3 and rng.random() < 0.25:       # a descending pair of iterated axes
+                hi = rng.randrange(1, nd)
+                axis = [hi, rng.randrange(0, hi)]
             if rng.random() < 0.1:
                 axis = axis + [nd + rng.randint(0, 2)]      # out-of-range entries are ignored by sliceaxisix
         return {"kind": "axis", "shape": shape, "axis": axis, "rng": self._rng_spec(rng)}
+
+    @staticmethod
+    def _negate_axes(rng, case):
+        """the same request with some axes counted from the end (numpy convention)"""
+        nd = len(case["shape"])
+        ax = case["axis"]
+        neg = lambda a: a - nd if (0 <= a < nd and rng.random() < 0.7) else a
+        c = dict(case)
+        c["axis"] = [neg(a) for a in ax] if isinstance(ax, list) else neg(ax)
+        return c
 
     def _gen_outcross(self, rng):
         nrow = rng.choice([1, 2, 2, 3, 3, 4, 5, 6])
@@ -386,6 +421,8 @@ class C17(Prop):
         while nrow * ncol > 16:
             nrow -= 1
         ids = rng.choice([2, 3, 4, 6, 9])
+        if nrow != ncol and rng.random() < 0.5:
+            ids = rng.choice([2, 3])                  # many repeats on a non-square table
         x = [rng.randrange(ids) for _ in range(nrow * ncol)]
         if rng.random() < 0.5 and ncol > 1:       # forced selfs
             for r in range(nrow):
@@ -394,7 +431,8 @@ class C17(Prop):
         if rng.random() < 0.2:                      # balanced tiles, as produced by tiled_choice
             x = [(i % ids) for i in range(nrow * ncol)]
             rng.shuffle(x)
-        return {"kind": "outcross", "nrow": nrow, "ncol": ncol, "x": x, "rng": self._rng_spec(rng)}
+        layout = rng.choice(["C"] * 8 + ["F", "colslice"])
+        return {"kind": "outcross", "nrow": nrow, "ncol": ncol, "x": x, "layout": layout, "rng": self._rng_spec(rng)}
 
     def exhaustive(self, tier):
         """thorough tier: every weight vector with <= 3 entries in {0..3} (positive sum) x 1..6 draws x
@@ -430,11 +468,17 @@ class C17(Prop):
         for _ in range(n):
             r = rng.random()
             if r < 0.45:
-                out.append(self._gen_sus(rng))
+                c = self._gen_sus(rng)
+                if rng.random() < 0.02:
+                    c["size"] = rng.choice([0, [0], [2, 0], [0, 3]])     # an empty request (finding D7d)
+                out.append(c)
             elif r < 0.65:
                 out.append(self._gen_tiled(rng))
             elif r < 0.80:
-                out.append(self._gen_axis(rng))
+                c = self._gen_axis(rng)
+                if rng.random() < 0.12:
+                    c = self._negate_axes(rng, c)
+                out.append(c)
             elif r < 0.84:
                 c = self._gen_axis(rng)
                 if rng.random() < 0.15:
@@ -459,6 +503,10 @@ class C17(Prop):
             p0, a0 = p.copy(), a.copy()
             out = S.stochastic_universal_sampling(a, p, _size_arg(case["size"]), rng)
             out = numpy.asarray(out)
+            if _prod(_size_list(case["size"])) == 0:      # empty request answered (only after D7d is repaired)
+                return {"out": [int(v) for v in out.ravel()], "shape": [int(v) for v in out.shape], "offset": 0,
+                        "sigma": [int(v) for v in p.argsort()[::-1]], "perm": [],
+                        "inputs_untouched": bool((p0 == p).all() and (a0 == a).all())}
             orc = _sus_oracle(case)
             return {"out": [int(v) for v in out.ravel()], "shape": [int(v) for v in out.shape],
                     "offset": canon.enc(orc["offset"]), "sigma": orc["sigma"], "perm": orc["perm"],
@@ -491,14 +539,30 @@ class C17(Prop):
                     return {"raised": None, "after": [int(v) for v in arr.ravel()]}
                 except TypeError as e:
                     return {"raised": canon.exc_tag(e), "after": [int(v) for v in arr.ravel()]}
-            S.axis_shuffle(arr, ax, rng)
+            requested = set(a + len(shape) if a < 0 else a for a in _axes(case))
+            try:
+                S.axis_shuffle(arr, ax, rng)
+            except TypeError as e:
+                # only legitimate when the *requested* axes (negative ones counted from the end) leave no free
+                # axis: a code that normalises negative axes must reject the 0-d items
+                if len(requested & set(range(len(shape)))) == len(shape):
+                    return {"raised": canon.exc_tag(e), "after": [int(v) for v in arr.ravel()]}
+                raise
             return {"after": [int(v) for v in arr.ravel()], "shape": [int(v) for v in arr.shape],
                     "perms": _axis_oracle(case)["perms"]}
         if k == "outcross":
             arr = numpy.array(case["x"], dtype=numpy.int64).reshape(case["nrow"], case["ncol"])
+            layout = case.get("layout", "C")
+            if layout == "F":
+                arr = numpy.asfortranarray(arr)
+            elif layout == "colslice":          # a view on the leading columns of a wider table
+                wide = numpy.full((case["nrow"], case["ncol"] + 1), -7, dtype=numpy.int64)
+                wide[:, :case["ncol"]] = arr
+                arr = wide[:, :case["ncol"]]
+            cc = bool(arr.flags["C_CONTIGUOUS"])
             S.outcross_shuffle(arr, rng)
             return {"after": [int(v) for v in arr.ravel()], "shape": [int(v) for v in arr.shape],
-                    "orders": _outcross_oracle(case)["orders"]}
+                    "c_contiguous": cc, "orders": _outcross_oracle(case)["orders"]}
         raise ValueError(k)
 
     @staticmethod
@@ -534,7 +598,7 @@ class C17(Prop):
             return [{"op": "c17.sliceaxisix", "shape": case["shape"], "axis": _axes(case)}]
         if k == "outcross":
             return [{"op": "c17.outcross", "nrow": case["nrow"], "ncol": case["ncol"], "x": case["x"],
-                     "orders": obs["orders"]},
+                     "orders": obs["orders"], "c_contiguous": obs["c_contiguous"]},
                     {"op": "c17.spec_outcross", "nrow": case["nrow"], "ncol": case["ncol"], "before": case["x"],
                      "after": obs["after"]}]
         raise ValueError(k)
@@ -570,6 +634,33 @@ class C17(Prop):
         return {"corr": False, "spec": True, "nontrivial": False,
                 "detail": f"replayed draws rejected by the model: {m['error']}"}
 
+    @staticmethod
+    def _rounded_margin(case, obs):
+        """does `sus_floor_ceil_rounded` apply to this call?  eps := (n + k + 2) rounding units of the total
+        (a bound for the accumulated error of the sequential cumsum, of ptr_dist*j and of the final addition);
+        the theorem needs every exact pointer more than 2*eps away from every exact cumulative boundary before
+        the last element of positive weight, and the exact offset below the exact spacing"""
+        p = [Fraction(v) for v in case["p"]]
+        k = _prod(_size_list(case["size"]))
+        if k == 0:
+            return ""
+        tot = sum(p)
+        d = tot / k
+        o = Fraction(obs["offset"])
+        n = len(p)
+        eps = (n + k + 2) * Fraction(float(numpy.spacing(float(tot))))
+        last = sum(1 for v in p if v != 0) - 1
+        cs, acc = [], Fraction(0)
+        for i in obs["sigma"][:max(last, 0)]:
+            acc += p[i]
+            cs.append(acc)
+        if not (0 <= o < d):
+            return "[rounded theorem: n/a, offset not below the exact spacing]"
+        gap = min((abs(o + j * d - c) for j in range(k) for c in cs), default=None)
+        if gap is None or gap > 2 * eps:
+            return "[rounded theorem applies]"
+        return "[rounded theorem: n/a, a pointer is within 2*eps of an interior boundary (tie)]"
+
     def judge(self, case, obs, answers):
         k = case["kind"]
         for a in answers:
@@ -582,11 +673,12 @@ class C17(Prop):
             shape_ok = obs["shape"] == size
             corr = m.get("out") == obs["out"] and obs["inputs_untouched"]
             note = ""
-            if not corr and case.get("regime") == "float" and self._near_tie(case, obs):
+            if not corr and _prod(size) > 0 and case.get("regime") == "float" and self._near_tie(case, obs):
                 corr, note = True, " [tie within binary64 rounding: model/implementation comparison waived]"
             elif "error" in m and str(m["error"]).startswith("oracle:"):
                 return self._oracle_fault(m, case)
             spec = bool(s["ok"]) and shape_ok
+            note += " " + self._rounded_margin(case, obs)
             p = [Fraction(v) for v in case["p"]]
             nontriv = sum(1 for v in p if v > 0) >= 2 and _prod(size) >= 2
             return {"corr": corr, "spec": spec, "nontrivial": nontriv,
@@ -656,18 +748,36 @@ class C17(Prop):
 
     # ------------------------------------------------------------------ signature of a failing case
     def signature(self, case, obs, verdict):
-        """no finding is open for C17; the signature only describes the failure for the replay file"""
-        sig = {"kind": case["kind"]}
-        if case["kind"] != "sus":
-            return sig
-        try:
-            orc = _sus_oracle(case)
-            sig["offset_zero_or_below_rounding_unit"] = orc["offset_zero_or_absorbed"]
-            sig["offset_within_rounding_of_spacing"] = bool(orc["d"] - orc["offset"] <= 4 * numpy.spacing(orc["tot"]))
-        except Exception:
-            pass
-        if isinstance(obs, dict) and "__exception__" in obs:
-            sig["fail"] = "exception:" + obs.get("text", "")[:60]
+        """attributes the KNOWN_FINDINGS matchers (D7d, D7e, D7f) refer to; each is the mechanism, recomputed
+        from the case / the observation"""
+        kind = case["kind"]
+        sig = {"kind": kind}
+        raised = isinstance(obs, dict) and "__exception__" in obs
+        if raised:
+            sig["fail"] = "exception"
+            sig["exception_class"] = obs.get("text", "").split(":")[0]
+        if kind == "sus":
+            sig["size_zero"] = _prod(_size_list(case["size"])) == 0
+            if not sig["size_zero"]:
+                try:
+                    orc = _sus_oracle(case)
+                    sig["offset_zero_or_below_rounding_unit"] = orc["offset_zero_or_absorbed"]
+                    sig["offset_within_rounding_of_spacing"] = bool(
+                        orc["d"] - orc["offset"] <= 4 * numpy.spacing(orc["tot"]))
+                except Exception:
+                    pass
+        elif kind == "outcross" and not raised:
+            sig["c_contiguous"] = bool(obs.get("c_contiguous", True))
+            try:
+                sp = verdict["answers"][1]["ok"]
+                only_local = (sp["multiset_ok"] and not sp["rows_worse"] and sp["total_ok"] and sp["improving"] > 0
+                              and obs["after"] == case["x"])
+                sig["fail"] = "table_untouched_not_local_optimum" if only_local else "other"
+            except Exception:
+                sig["fail"] = "unknown"
+        elif kind == "axis" and not raised:
+            sig["negative_axis"] = any(a < 0 for a in _axes(case))
+            sig["fail"] = "values_left_requested_slice"
         return sig
 
     # ------------------------------------------------------------------ shrinking
@@ -739,7 +849,8 @@ class C17(Prop):
             finally:
                 setattr(mod, name, old)
 
-        def sus_variant(fixed_offset=False, rule=None, ascending=False, noshuffle=False, ptr_skip=False):
+        def sus_variant(fixed_offset=False, rule=None, ascending=False, noshuffle=False, ptr_skip=False,
+                        linspace=False):
             """the function as it is (after fix fc545079) with one thing changed"""
             def f(a, p, size=None, rng=None):
                 if isinstance(size, (int, numpy.integer)):
@@ -755,6 +866,8 @@ class C17(Prop):
                 sel = []
                 ix = 0
                 ptrs = off + d * numpy.arange(k)
+                if linspace:        # pointers compressed towards the end: spacing (tot-off)/k instead of tot/k
+                    ptrs = numpy.linspace(off, tot, int(k), endpoint=False)
                 last = (len(p) - 1) if ascending else (numpy.count_nonzero(p) - 1)
                 lo = (off < 0.5 * d) if rule is None else (rule == "le")
                 for j, ptr in enumerate(ptrs):
@@ -849,6 +962,29 @@ class C17(Prop):
                     it = (not loc) and not first_pass_only
             return f
 
+        def outcross_pruned(xconfig, rng=None):
+            """candidate exchanges pruned to 'different crosses', the cross of a flat position computed with
+            shape[0] instead of shape[1]: on non-square tables genuine between-cross exchanges are never tried"""
+            def objfn(x):
+                return sum(len(r) - len(numpy.unique(r)) for r in x)
+            xr = xconfig.ravel()
+            best = objfn(xconfig)
+            w = xconfig.shape[0]
+            ex = numpy.array([[i, j] for i in range(len(xr)) for j in range(i + 1, len(xr)) if i // w != j // w])
+            it = True
+            while it:
+                rng.shuffle(ex)
+                loc = True
+                for i, j in ex:
+                    xr[i], xr[j] = xr[j], xr[i]
+                    sc = objfn(xconfig)
+                    if sc < best:
+                        best = sc
+                        loc = False
+                        break
+                    xr[i], xr[j] = xr[j], xr[i]
+                it = not loc
+
         def outcross_overwrite(xconfig, rng=None):
             xr = xconfig.ravel()
             for r in range(xconfig.shape[0]):
@@ -856,6 +992,20 @@ class C17(Prop):
                 for c in range(1, len(row)):
                     if row[c] in row[:c]:
                         row[c] = xr[(r * len(row) + c + 1) % len(xr)]    # copies instead of exchanging
+
+        def slices_head_only(shape, axis):
+            """membership test replaced by a head-only test on the axis tuple (assumes it ascends)"""
+            def rec(l, a):
+                d = len(l)
+                if d == len(shape):
+                    yield tuple(l)
+                    return
+                if a and d == a[0]:
+                    for i in range(shape[d]):
+                        yield from rec(l + [i], a[1:])
+                else:
+                    yield from rec(l + [slice(None)], a)
+            yield from rec([], tuple(axis))
 
         def slices_variant(reverse=False, skip_last=False):
             def gen(shape, axis):
@@ -883,6 +1033,9 @@ class C17(Prop):
         return [
             ("sliceaxisix_reversed_order", lambda: patch2("sliceaxisix", slices_variant(reverse=True))),
             ("sliceaxisix_skips_last_index", lambda: patch2("sliceaxisix", slices_variant(skip_last=True))),
+            ("sliceaxisix_assumes_ascending_axes", lambda: patch2("sliceaxisix", slices_head_only)),
+            ("sus_pointers_by_linspace", lambda: patch(S, sus, sus_variant(linspace=True))),
+            ("outcross_pruned_with_wrong_row_length", lambda: patch(S, "outcross_shuffle", outcross_pruned)),
             ("sus_revert_of_fix_fc545079", lambda: patch(S, sus, sus_prerepair)),
             ("sus_fixed_offset", lambda: patch(S, sus, sus_variant(fixed_offset=True))),
             ("sus_always_right_closed", lambda: patch(S, sus, sus_variant(rule="lt"))),
